@@ -144,6 +144,8 @@ class Suite:
             return v, None
         except CacheChangesResult as e:
             return Verdict(False, str(e), key="result-through-a-cache-differs"), None
+        except ArgumentChanged as e:
+            return Verdict(False, str(e), key="argument-changed-or-call-not-repeatable"), None
         except Exception:  # a crash of the real code on an admitted input is reported apart
             return None, traceback.format_exc(limit=8)
         finally:
@@ -271,6 +273,16 @@ def _scribble_results(targets):
             return {k: copied(y, depth + 1) for k, y in x.items()}
         return x
 
+    def _array_args(args):
+        out = []
+        for nm in ("srf_flx", "z", "levels", "meas_pt", "domain", "modes"):
+            if isinstance(args.get(nm), np.ndarray):
+                out.append((nm, args[nm]))
+        for i, pr in enumerate(args.get("profiles") or ()):
+            if isinstance(pr, np.ndarray):
+                out.append(("profiles[%d]" % i, pr))
+        return out
+
     saved = []
     for modname, name in targets:
         try:
@@ -281,9 +293,32 @@ def _scribble_results(targets):
         if getattr(real, "_pyvc_scribbling", False):
             continue
 
-        def make(real):
+        def make(real, name=name):
             def wrapper(*a, **k):
-                res = real(*a, **k)
+                if name == "steady_state_transport_solver":
+                    # ... and the tower position is handed over as a float64 array (a row of a table of towers) that the
+                    # caller keeps: the call must leave every array argument as it was, and the same call made again with
+                    # the same objects must return the same fields
+                    import inspect
+                    b = inspect.signature(real).bind(*a, **k)
+                    b.apply_defaults()
+                    args = dict(b.arguments)
+                    if isinstance(args.get("meas_pt"), (tuple, list)) and len(args["meas_pt"]) == 2:
+                        args["meas_pt"] = np.array([float(args["meas_pt"][0]), float(args["meas_pt"][1])], dtype=np.float64)
+                    before = [(nm, np.array(v, copy=True)) for nm, v in _array_args(args)]
+                    res = real(**args)
+                    for (nm, old), (_, new) in zip(before, _array_args(args)):
+                        if old.shape != np.shape(new) or not np.array_equal(old, new, equal_nan=True):
+                            raise ArgumentChanged("the solver call changed its argument %s in place (%r -> %r)" % (
+                                nm, old.ravel()[:4].tolist(), np.asarray(new).ravel()[:4].tolist()))
+                    again = real(**args)
+                    for x, y in zip(arrays_in(res, []), arrays_in(again, [])):
+                        # (to rounding: the FFT layer is not bit-reproducible for every memory layout of the source)
+                        if x.shape != y.shape or not np.allclose(x, y, rtol=0.0, atol=1e-9 * max(float(np.max(np.abs(np.nan_to_num(y)))) if y.size else 0.0, 1e-300), equal_nan=True):
+                            raise ArgumentChanged("the same solver call on the same argument objects returned different fields the second time")
+                    a, k = (), args
+                else:
+                    res = real(*a, **k)
                 given = arrays_in((a, k), [])
                 out = copied(res)
                 for arr in arrays_in(res, []):
@@ -313,6 +348,10 @@ def _scribble_results(targets):
 
 
 # ----------------------------------------------------------------------------- cache-history variant
+class ArgumentChanged(BaseException):      # see CacheChangesResult
+    pass
+
+
 class CacheChangesResult(BaseException):     # not an Exception: the suites treat Exception as behaviour of the solver
     pass
 
